@@ -9,7 +9,12 @@
     SymmetryElement.to_shelxl         (dsrmath.py)   -> `rowText`, `toShelxl` (generic in the number formatter; `fmtDec` models `str(float)`)
     SymmetryElement.__eq__            (dsrmath.py)   -> `eqModel`
     SYMM._parse_line                  (cards.py)     -> `splitWs`, `splitComma`, `symmCard`
-  Specification (code independent): the grammar `Item`/`Numeral`, `print`, `denote`, `Relayout`, `LatticeEq`.
+    SymmetryElement.__init__(centric=True)           -> `initOp`    (`matrix *= -1; trans *= -1`)
+    SymmetryElement.apply_latt_symm   (dsrmath.py)   -> `applyLatt` (print, parse the text again, replace the translation)
+    histories of such calls on a pool of objects     -> `Step`, `stepModel`, `runModel` (printing/comparing has no effect)
+    Matrix.__eq__ before the repair                  -> `LegacyObj`, `eqLegacy` (tuple rows never equal list rows)
+  Specification (code independent): the grammar `Item`/`Numeral`, `print`, `denote`, `Relayout`, `LatticeEq`;
+  for operators made from operators: the action on a point `Op.act`, `Op.inverted`, `Op.shifted`, `SStep`, `specRun`.
 
   Domain of the model of `float()`/`eval`: strings over the alphabet of the grammar
   (digits . / + - X Y Z, blanks, lower case x y z). On that alphabet CPython's `float()` accepts exactly
@@ -24,7 +29,8 @@ inductive Err
   | syntaxError       -- `eval` of a malformed fraction
   | zeroDivision      -- `eval('1./0.')`
   | noneTranslation   -- `_float` returned `None` (no exception in Python: the operator carries `None`)
-  | unmodelled        -- `eval` of an expression outside `signs digits / digits`
+  | unmodelled        -- `eval` of an expression outside `signs digits / digits`; an operator that has not three rows
+  | badIndex          -- a history refers to an object that does not exist (not a Python behaviour: malformed request)
 deriving DecidableEq, Repr
 
 /-! ### Model: text helpers -/
@@ -222,6 +228,87 @@ def eqModel (tol : Rat) (a b : Op) : Bool :=
   (a.r0.c = b.r0.c ∧ a.r1.c = b.r1.c ∧ a.r2.c = b.r2.c) ∧
   nearInt tol (a.r0.t - b.r0.t) ∧ nearInt tol (a.r1.t - b.r1.t) ∧ nearInt tol (a.r2.t - b.r2.t)
 
+/-! ### Model: operators the library makes from operators (`centric=True`, `apply_latt_symm`), histories -/
+
+/-- three rows make an operator (anything else is outside the modelled domain) -/
+def opOfRows : List Row → Except Err Op
+  | [a, b, c] => .ok ⟨a, b, c⟩
+  | _ => .error .unmodelled
+
+/-- `matrix *= -1; trans *= -1` on one row -/
+def Row.timesMinusOne (r : Row) : Row := ⟨(r.c.1 * -1, r.c.2.1 * -1, r.c.2.2 * -1), r.t * -1⟩
+
+/-- `SymmetryElement(symms, centric)`: parse the three strings; `if centric: self.matrix *= -1; self.trans *= -1` -/
+def initOp (symms : List (List Char)) (centric : Bool) : Except Err Op :=
+  match parseOp symms with
+  | .error e => .error e
+  | .ok rows => match opOfRows rows with
+    | .error e => .error e
+    | .ok o => .ok (if centric then ⟨o.r0.timesMinusOne, o.r1.timesMinusOne, o.r2.timesMinusOne⟩ else o)
+
+/-- `SymmetryElement(self.to_shelxl().split(','))` -/
+def reparse (fmt : Rat → List Char) (o : Op) : Except Err Op :=
+  initOp (splitComma (toShelxl fmt o.rows)) false
+
+/-- `apply_latt_symm`: `new = SymmetryElement(self.to_shelxl().split(','))`, then
+    `new.trans = Array([(self.trans[i] + latt_symm.trans[i]) / 1 …])` (the matrix is the re-parsed one) -/
+def applyLatt (fmt : Rat → List Char) (self latt : Op) : Except Err Op :=
+  match reparse fmt self with
+  | .error e => .error e
+  | .ok n => .ok ⟨⟨n.r0.c, (self.r0.t + latt.r0.t) / 1⟩, ⟨n.r1.c, (self.r1.t + latt.r1.t) / 1⟩,
+                  ⟨n.r2.c, (self.r2.t + latt.r2.t) / 1⟩⟩
+
+/-- One call in a history on a pool of operator objects (objects are never changed, only added). -/
+inductive Step
+  | parse (symms : List (List Char)) (centric : Bool)   -- `SymmetryElement(symms, centric)`
+  | given (o : Op)                                      -- an operator handed in by another part of the library
+  | latt (i j : Nat)                                    -- `pool[i].apply_latt_symm(pool[j])`
+  | reparse (i : Nat)                                   -- `SymmetryElement(pool[i].to_shelxl().split(','))`
+  | observe (i : Nat)                                   -- `to_shelxl()`, `repr()`, `str()`, `to_cif()`, `==`: no effect
+
+def stepModel (fmt : Rat → List Char) (pool : List Op) : Step → Except Err (List Op)
+  | .parse s c => match initOp s c with
+    | .error e => .error e
+    | .ok o => .ok (pool ++ [o])
+  | .given o => .ok (pool ++ [o])
+  | .latt i j => match pool[i]?, pool[j]? with
+    | some a, some l => match applyLatt fmt a l with
+      | .error e => .error e
+      | .ok o => .ok (pool ++ [o])
+    | _, _ => .error .badIndex
+  | .reparse i => match pool[i]? with
+    | some a => match reparse fmt a with
+      | .error e => .error e
+      | .ok o => .ok (pool ++ [o])
+    | none => .error .badIndex
+  | .observe i => if i < pool.length then .ok pool else .error .badIndex
+
+def runModel (fmt : Rat → List Char) : List Op → List Step → Except Err (List Op)
+  | pool, [] => .ok pool
+  | pool, s :: r => match stepModel fmt pool s with
+    | .error e => .error e
+    | .ok p => runModel fmt p r
+
+/-- a number written as a signed fraction `n/d`: an exact formatter (the text of `str(float)` is not an observable;
+    what matters is that `float(str(x)) == x`, which `FmtOk` states and CPython's shortest `repr` guarantees) -/
+def fmtFrac (x : Rat) : List Char :=
+  (if x < 0 then ['-'] else []) ++ (natDigits x.num.natAbs).map digitChar ++ ['/'] ++ (natDigits x.den).map digitChar
+
+/-! #### before the repair: `Matrix.__eq__` compared the rows as Python objects
+
+  `Matrix(lines).transposed` is built from `zip(…)`: its rows are tuples. `matrix *= -1` (centric) goes through
+  `Matrix.__mul__`, which builds lists. `(−1, 0, 0) == [−1, 0, 0]` is `False` in Python, so an operator made with
+  `centric=True` never compared equal to one that was parsed (not even to its own printed text, parsed). -/
+
+structure LegacyObj where
+  op : Op
+  listRows : Bool
+
+def initLegacy (symms : List (List Char)) (centric : Bool) : Except Err LegacyObj :=
+  (initOp symms centric).map fun o => ⟨o, centric⟩
+
+def eqLegacy (tol : Rat) (a b : LegacyObj) : Bool := (a.listRows == b.listRows) && eqModel tol a.op b.op
+
 /-! ### Model: the SYMM card (`line.split()`, `''.join(spline[1:]).split(',')`) -/
 
 /-- blanks of `str.split()` that can occur inside one line -/
@@ -370,5 +457,54 @@ def latticeEqB (a b : Op) : Bool :=
 
 /-- the row an operator line denotes, as a `Row` -/
 def denoteRow (c : Component) : Row := Row.ofPair (denote c)
+
+/-! ### Specification: operators made from operators -/
+
+abbrev Point := Rat × Rat × Rat
+
+/-- what an operator does to a point: `R p + t` -/
+def Op.act (o : Op) (p : Point) : Point :=
+  (o.r0.c.1 * p.1 + o.r0.c.2.1 * p.2.1 + o.r0.c.2.2 * p.2.2 + o.r0.t,
+   o.r1.c.1 * p.1 + o.r1.c.2.1 * p.2.1 + o.r1.c.2.2 * p.2.2 + o.r1.t,
+   o.r2.c.1 * p.1 + o.r2.c.2.1 * p.2.1 + o.r2.c.2.2 * p.2.2 + o.r2.t)
+
+def Row.inverted (r : Row) : Row := ⟨(-r.c.1, -r.c.2.1, -r.c.2.2), -r.t⟩
+
+/-- the operator followed by the inversion in the origin (the second half of a centrosymmetric group) -/
+def Op.inverted (o : Op) : Op := ⟨o.r0.inverted, o.r1.inverted, o.r2.inverted⟩
+
+/-- the operator followed by the translation `v` (a centring vector) -/
+def Op.shifted (o : Op) (v : Point) : Op :=
+  ⟨⟨o.r0.c, o.r0.t + v.1⟩, ⟨o.r1.c, o.r1.t + v.2.1⟩, ⟨o.r2.c, o.r2.t + v.2.2⟩⟩
+
+def Op.trans (o : Op) : Point := (o.r0.t, o.r1.t, o.r2.t)
+
+/-- the operator three components denote -/
+def denoteOp (c0 c1 c2 : Component) : Op := ⟨denoteRow c0, denoteRow c1, denoteRow c2⟩
+
+/-- a history as the property sees it: which operator each new object has to be -/
+inductive SStep
+  | parse (c0 c1 c2 : Component) (centric : Bool)
+  | given (o : Op)
+  | latt (i j : Nat)
+  | reparse (i : Nat)
+  | observe (i : Nat)
+
+def specStep (pool : List Op) : SStep → Option (List Op)
+  | .parse c0 c1 c2 cen => some (pool ++ [if cen then (denoteOp c0 c1 c2).inverted else denoteOp c0 c1 c2])
+  | .given o => some (pool ++ [o])
+  | .latt i j => match pool[i]?, pool[j]? with
+    | some a, some l => some (pool ++ [a.shifted l.trans])
+    | _, _ => none
+  | .reparse i => match pool[i]? with
+    | some a => some (pool ++ [a])          -- printing and parsing gives the same operator
+    | none => none
+  | .observe i => if i < pool.length then some pool else none   -- looking at an operator changes nothing
+
+def specRun : List Op → List SStep → Option (List Op)
+  | pool, [] => some pool
+  | pool, s :: r => match specStep pool s with
+    | none => none
+    | some p => specRun p r
 
 end Shelx.C10
